@@ -927,7 +927,7 @@ def run_scenarios(ctx):
         ps = [rnd.choice([(0, -2, 8), (1, 0, 8), (2, -2, 0), (3, 0, 0)]) if tb else (3, 0, 0) for _ in range(p)]
         out.append(dict(kind="run", mode="seeded", n=rnd.randint(4, 14), nsr=nsr, bs=bs, maxpar=maxpar,
                         sched=(rnd.randint(0, 10 ** 6) if (maxpar > 1 or j % 3 == 0) else None), tb=tb, ps=[list(x) for x in ps],
-                        support=[[0, 4]] * p, start=[rnd.choice([0.5, 2.0, 3.5]) for _ in range(p)], seed=rnd.randint(0, 10 ** 6),
+                        support=[[0, 4]] * p, start=[rnd.choice([0.5, 2.0, 3.5]) for _ in range(p)], seed=(0 if rnd.random() < 0.1 else rnd.randint(0, 10 ** 6)),
                         sigma=rnd.choice([1.0, 4.0, 9.0]), obs=rnd.choice([1, 2, 3]) * p, noise_seed=rnd.randint(0, 10 ** 6),
                         burn_in=rnd.choice([0, 0, 2]), p_ready=rnd.choice([0.2, 0.5, 0.9]), p_run=rnd.choice([0.0, 0.5, 1.0])))
     # (4) seeded robust runs: syn_likelihood_misspec ('mean' / 'variance') with its gamma slice sampler, narrow and
@@ -945,7 +945,7 @@ def run_scenarios(ctx):
         ps = [rnd.choice([(0, lo - 1, hi + 1), (1, 0, hi + 1), (2, lo - 1, 0), (3, 0, 0)]) if tb else (3, 0, 0) for _ in range(p)]
         out.append(dict(kind="run", mode="seeded", robust=rnd.choice(["mean", "variance"]), n=rnd.randint(5, 12), nsr=nsr, bs=bs, maxpar=maxpar,
                         sched=(rnd.randint(0, 10 ** 6) if (maxpar > 1 or j % 4 == 0) else None), tb=tb, ps=[list(x) for x in ps],
-                        support=[[lo, hi]] * p, start=start, seed=rnd.randint(0, 10 ** 6), sigma=rnd.choice(sig),
+                        support=[[lo, hi]] * p, start=start, seed=(0 if rnd.random() < 0.1 else rnd.randint(0, 10 ** 6)), sigma=rnd.choice(sig),
                         obs1=sum(start), obs=0.5 * sum(start), noise_seed=rnd.randint(0, 10 ** 6), burn_in=rnd.choice([0, 0, 2]),
                         p_ready=rnd.choice([0.2, 0.5, 0.9]), p_run=rnd.choice([0.0, 0.5, 1.0])))
     return out, n_ex
